@@ -1,6 +1,6 @@
 // Harnesses that are children of `logger_handle` (LoggerHandle / WritersHandle internals).
 use super::*;
-use crate::log_specification::verif_harness::{any_filter, mk_spec};
+use crate::log_specification::verif_harness::{any_filter, mk_spec, mk_spec_tf, tf_of};
 use crate::ModuleFilter;
 use log::{Level, LevelFilter};
 use verif_support as vs;
@@ -26,6 +26,27 @@ fn spec_of(a: u64, d: u64) -> LogSpecification {
     v.push(ModuleFilter { module_name: Some("a".to_string()), level_filter: filter_of(a) });
     v.push(ModuleFilter { module_name: None, level_filter: filter_of(d) });
     mk_spec(v)
+}
+// the same with text filter t (0 = none; else pattern id t of the regex model; always 0 without the feature)
+fn spec_of3(a: u64, d: u64, t: u8) -> LogSpecification {
+    let mut v = Vec::with_capacity(2);
+    v.push(ModuleFilter { module_name: Some("a".to_string()), level_filter: filter_of(a) });
+    v.push(ModuleFilter { module_name: None, level_filter: filter_of(d) });
+    mk_spec_tf(v, t)
+}
+fn any_tf() -> u8 {
+    #[cfg(feature = "textfilter")]
+    {
+        let t: u8 = kani::any();
+        kani::assume(t <= 2);
+        return t;
+    }
+    #[allow(unreachable_code)]
+    0
+}
+fn observed_tf(h: &LoggerHandle) -> u8 {
+    let g = h.writers_handle.spec.read().unwrap();
+    tf_of(&g)
 }
 // highest level the active spec enables for `target` (0 = none): observation through the public
 // `enabled` decision only
@@ -54,12 +75,12 @@ fn stub_format(_a: std::fmt::Arguments<'_>) -> String {
     String::new()
 }
 // Contract stub for LogSpecification::parse (the parser itself is decided under C17):
-//   "G<a><d>" -> Ok(spec a=<a>, default=<d>);  anything starting with 'X' -> Err(Parse) carrying a
+//   "G<a><d><t>" -> Ok(spec a=<a>, default=<d>, text filter <t>);  anything starting with 'X' -> Err(Parse) carrying a
 //   partial spec. Strings are produced by `menu()` only.
 fn stub_parse<S: AsRef<str>>(s: S) -> Result<LogSpecification, FlexiLoggerError> {
     let b = s.as_ref().as_bytes();
-    if b.len() == 3 && b[0] == b'G' {
-        Ok(spec_of((b[1] - b'0') as u64, (b[2] - b'0') as u64))
+    if b.len() == 4 && b[0] == b'G' {
+        Ok(spec_of3((b[1] - b'0') as u64, (b[2] - b'0') as u64, b[3] - b'0'))
     } else {
         Err(FlexiLoggerError::Parse(String::new(), spec_of(5, 5)))
     }
@@ -87,6 +108,14 @@ fn mk_handle(a: u64, d: u64, with_writer: bool) -> LoggerHandle {
     }
     LoggerHandle::new(Arc::new(RwLock::new(spec_of(a, d))), Arc::new(primary), Arc::new(others))
 }
+fn mk_handle3(a: u64, d: u64, t: u8, with_writer: bool) -> LoggerHandle {
+    let primary = PrimaryWriter::multi(crate::Duplicate::None, crate::Duplicate::None, false, dummy_format, dummy_format, None, None);
+    let mut others: HashMap<String, Box<dyn LogWriter>> = HashMap::new();
+    if with_writer {
+        others.push_unique("A".to_string(), Box::new(RecW));
+    }
+    LoggerHandle::new(Arc::new(RwLock::new(spec_of3(a, d, t))), Arc::new(primary), Arc::new(others))
+}
 fn any_rank() -> u64 {
     let r: u64 = kani::any();
     kani::assume(r <= 5);
@@ -110,36 +139,37 @@ macro_rules! lh_harness {
 // One reconfiguration operation on the real handle + on the reference stack.
 // Reference: `stack` of (a,d) pairs (depth <= 3) + active pair.
 struct Ref {
-    act: (u64, u64),
-    st: [(u64, u64); 4],
+    act: (u64, u64, u8),
+    st: [(u64, u64, u8); 4],
     n: usize,
 }
 fn step(h: &mut LoggerHandle, r: &mut Ref, op: u8) {
     let a = any_rank();
     let d = any_rank();
+    let t = any_tf();
     // op codes 5 / 6 are parse_new_spec / parse_and_push_temp_spec with a malformed string
     let bad = op == 5 || op == 6;
     let op = if op == 5 { 1 } else if op == 6 { 3 } else { op };
-    let good = [b'G', b'0' + a as u8, b'0' + d as u8];
+    let good = [b'G', b'0' + a as u8, b'0' + d as u8, b'0' + t];
     let txt: &str = if bad { "X y" } else { vs::str_from(&good) };
     match op {
         0 => {
-            h.set_new_spec(spec_of(a, d));
-            r.act = (a, d);
+            h.set_new_spec(spec_of3(a, d, t));
+            r.act = (a, d, t);
         }
         1 => {
             let res = h.parse_new_spec(txt);
             assert!(res.is_err() == bad);
             std::mem::forget(res); // FlexiLoggerError's drop glue (io::Error / Box<dyn Error> arms) explodes in CBMC
             if !bad {
-                r.act = (a, d);
+                r.act = (a, d, t);
             }
         }
         2 => {
-            h.push_temp_spec(spec_of(a, d));
+            h.push_temp_spec(spec_of3(a, d, t));
             r.st[r.n] = r.act;
             r.n += 1;
-            r.act = (a, d);
+            r.act = (a, d, t);
         }
         3 => {
             let res = h.parse_and_push_temp_spec(txt);
@@ -148,7 +178,7 @@ fn step(h: &mut LoggerHandle, r: &mut Ref, op: u8) {
             if !bad {
                 r.st[r.n] = r.act;
                 r.n += 1;
-                r.act = (a, d);
+                r.act = (a, d, t);
             }
         }
         _ => {
@@ -162,6 +192,8 @@ fn step(h: &mut LoggerHandle, r: &mut Ref, op: u8) {
     // filtering follows exactly the specification that is now active
     assert!(observed_rank(h, "ab") == r.act.0);
     assert!(observed_rank(h, "b") == r.act.1);
+    // ... including its text filter (present / absent / which pattern)
+    assert!(observed_tf(h) == r.act.2);
     // the saved stack has exactly the reference depth
     assert!(h.writers_handle.spec_stack.len() == r.n);
     // the facade's gate admits everything the active spec (or the additional writer) accepts
@@ -183,9 +215,10 @@ fn ops_case(op1: u8, op2: u8, op3: Option<u8>) {
     vs::cell_set(10, 0);
     let a0 = any_rank();
     let d0 = any_rank();
-    let mut h = mk_handle(a0, d0, with_writer);
+    let t0 = any_tf();
+    let mut h = mk_handle3(a0, d0, t0, with_writer);
     h.reconfigure(spec_of(a0, d0).max_level());
-    let mut r = Ref { act: (a0, d0), st: [(0, 0); 4], n: 0 };
+    let mut r = Ref { act: (a0, d0, t0), st: [(0, 0, 0); 4], n: 0 };
     step(&mut h, &mut r, op1);
     step(&mut h, &mut r, op2);
     if let Some(op3) = op3 {
@@ -244,6 +277,25 @@ ops_instance!(c05_parsepush_set_pop, 3, 0, 4);
 // @verif prop=C05 tier=thorough timeout=900 bounds=ops[push,pop,pop]
 // more pops than pushes.
 ops_instance!(c05_push_pop_pop, 2, 4, 4);
+
+// The same operation sequences with the text filter as part of every specification (feature
+// `textfilter`, regex model): present / absent / which pattern must follow the active spec too.
+// @verif prop=C05 tier=quick feat=textfilter timeout=900 bounds=ops[set,set],specs{a=L,default=L,text-filter-in{none,p1,p2}}-symbolic
+// set_new_spec twice: the active text filter is exactly the one of the last spec (also when that spec has none).
+#[cfg(feature = "textfilter")]
+ops_instance!(c05_tf_set_set, 0, 0);
+// @verif prop=C05 tier=quick feat=textfilter timeout=900 bounds=ops[push,pop],text-filter-symbolic
+// push then pop restores the text filter of the spec that was active before.
+#[cfg(feature = "textfilter")]
+ops_instance!(c05_tf_push_pop, 2, 4);
+// @verif prop=C05 tier=quick feat=textfilter timeout=900 bounds=ops[parse_new(well-formed),parse_and_push(malformed)],text-filter-symbolic
+// parse_new_spec takes the parsed text filter over; a rejected parse_and_push leaves it alone.
+#[cfg(feature = "textfilter")]
+ops_instance!(c05_tf_parse_badparsepush, 1, 6);
+// @verif prop=C05 tier=thorough feat=textfilter timeout=900 bounds=ops[parse_and_push,set,pop],text-filter-symbolic
+// nested with a set in between.
+#[cfg(feature = "textfilter")]
+ops_instance!(c05_tf_parsepush_set_pop, 3, 0, 4);
 
 // @verif prop=C05 tier=quick timeout=900 replay=rejected_push_then_pop bounds=push;rejected-parse_and_push;pop
 // Targeted 3-step history: push_temp_spec(S1); parse_and_push_temp_spec(malformed) -> Err; pop_temp_spec must re-activate the spec that was active before the (only successful) push, and the stack must be empty.
